@@ -245,6 +245,56 @@ func (d *cnDriver) genCommits(nonceBump map[string]uint64) []cnTxMeta {
 	return metas
 }
 
+// genEvidence submits equivocation evidence against committee members (and other nodes): two signed executor commitments of one
+// node for one round that differ.  The runtime's own slashing parameters decide whether anything is slashed; the slashed funds
+// are shared between the runtime's account, the submitter (or its entity) and the common pool.
+func (d *cnDriver) genEvidence(nonceBump map[string]uint64) []cnTxMeta {
+	n := d.net
+	var metas []cnTxMeta
+	for _, v := range d.lastRh {
+		if d.rng.Intn(8) != 0 || len(v.W) == 0 {
+			continue
+		}
+		members := append(append([]string{}, v.W...), v.B...)
+		node := members[d.rng.Intn(len(members))]
+		if d.rng.Intn(6) == 0 {
+			node = fmt.Sprintf("N%d", d.rng.Intn(len(n.vals)))
+		}
+		round := v.Round + 1
+		switch d.rng.Intn(6) {
+		case 0:
+			round = v.Round
+		case 1:
+			round = max(0, v.Round-int64(d.rng.Intn(12))) // possibly older than the maximum evidence age
+		}
+		pair, validity := []string{"AB", "AB", "AF", "AA", "XN"}[d.rng.Intn(5)], "ok"
+		if pair == "AA" || pair == "XN" {
+			validity = "noevidence"
+		}
+		accts := append(n.accounts(), n.nodeAccounts()...)
+		who := accts[d.rng.Intn(len(accts))].name
+		sp := &cnTxSpec{Kind: "rhevidence", Signer: who, To: v.RT, Node: node, Sched: v.W[d.rng.Intn(len(v.W))], Vote: pair, Amount: round,
+			Nonce: uint64(d.acctField(who, "n")) + nonceBump[who], Fee: int64(d.rng.Intn(2)), Gas: 6000, Validity: validity}
+		n.rhPrev[v.RT] = v.prevHash
+		raw, err := n.buildTx(sp, d.rng)
+		if err != nil {
+			continue
+		}
+		nonceBump[who]++
+		metas = append(metas, cnTxMeta{sp, raw})
+		if d.rng.Intn(4) == 0 { // the same evidence again (another submitter): a duplicate
+			who2 := accts[d.rng.Intn(len(accts))].name
+			sp2 := *sp
+			sp2.Signer, sp2.Nonce = who2, uint64(d.acctField(who2, "n"))+nonceBump[who2]
+			if raw2, err := n.buildTx(&sp2, d.rng); err == nil {
+				nonceBump[who2]++
+				metas = append(metas, cnTxMeta{&sp2, raw2})
+			}
+		}
+	}
+	return metas
+}
+
 func (d *cnDriver) rhTx(v *rhView, node, sched, vote, validity string, nonceBump map[string]uint64) []cnTxMeta {
 	n := d.net
 	round := v.Round + 1
